@@ -61,6 +61,11 @@ def gen_cases(tier, seed):
         for (u, v) in desc['edges']:
             succ['%d,%d' % (u, v)] = r.random() < ps
             succ['%d,%d' % (v, u)] = r.random() < ps
+        if kinds[k % len(kinds)] == 'table' and r.random() < 0.3:
+            desc = dict(desc)
+            desc['directed'] = True       # contacts with a direction: u reaches its successors only
+            I0 = r.sample(range(nn), r.randint(1, max(1, min(nn, 5))))      # often more infectious than susceptible nodes
+            R0 = [i for i in R0 if i not in I0]
         out.append({'kind': kinds[k % len(kinds)], 'graph': desc, 'I0': I0, 'R0': R0, 'tmin': tmin,
                     'tmax': r.choice(['inf', 'inf', tmin + 1, tmin + 2, tmin + 4, tmin + 3]), 'succ': succ,
                     'stay': [r.choice([1, 1, 2, 3]) for _ in range(nn)] if r.random() < 0.4 else None,
@@ -103,8 +108,15 @@ def run_table(case, res):
     for kk, b in case['succ'].items():
         u, v = kk.split(',')
         succ[(lab(int(u)), lab(int(v)))] = b
-    arcs = {a: 1 for a, b in succ.items() if b and a[0] not in R0 and a[1] not in R0}
+    arcs = {a: 1 for a, b in succ.items() if b and G.has_edge(*a) and a[0] not in R0 and a[1] not in R0}
     level = perc.bfs_levels([u for u in nodes if u not in R0], arcs, I0)
+    if G.is_directed():
+        bump(res, 'table_runs_on_directed_networks')
+    # the rule's answer is a truth value: a builtin bool, a numpy.bool_ (what a numpy comparison returns) or 1 / 0
+    ans = ['bool', 'numpy', 'int', 'bool'][case['seed'] % 4]
+    if ans != 'bool':
+        succ = {a: (np.bool_(b) if ans == 'numpy' else int(b)) for a, b in succ.items()}
+        bump(res, 'table_rules_answering_with_' + ans)
     stay = None
     if case['stay']:
         stay = {lab(i): d for i, d in enumerate(case['stay'])}
